@@ -955,6 +955,10 @@ func (x *gRun) checkSnapshot() {
 		if kd := int64(mt.GetsKept() + mt.GetsDropped()); kd > m.getsTotal {
 			x.mismatch("metrics-mismatch", fmt.Sprintf("GetsKept+GetsDropped=%d exceeds %d Gets", kd, m.getsTotal))
 		}
+		// the third law literally, through the public reading
+		if d, want := mt.CostAdded()-mt.CostEvicted(), uint64(x.l.C.MaxCost()-x.l.C.RemainingCost()); d != want {
+			x.mismatch("metrics-mismatch", fmt.Sprintf("CostAdded-CostEvicted=%d but MaxCost-RemainingCost()=%d", d, want))
+		}
 	}
 }
 
